@@ -336,6 +336,8 @@ static int mgt_load(struct module_data *m, HIO_HANDLE *f, const int start)
 	if (mod->trk > 0) {
 		mod->xxt[0] = (struct xmp_track *) calloc(1, sizeof(struct xmp_track) +
 							     sizeof(struct xmp_event) * 64 - 1);
+		if (mod->xxt[0] == NULL)
+			return -1;
 		mod->xxt[0]->rows = 64;
 	}
 
